@@ -378,6 +378,12 @@ def setLimit (s : St) (d : Denom) (limit : Int) (timeLimited : Bool) (period tbl
       if da.1 = d then (da.1, { da.2 with limit := limit, timeLimited := timeLimited, period := period,
                                            tbl := tbl, active := active }) else da) }
 
+/-- governance: replace the deputy address of asset `d` (a params change / `SetAsset`).  Only the asset
+    parameter changes: stored swaps keep their direction, sender and recipient; the new deputy matters for
+    swaps created from now on. -/
+def setDeputy (s : St) (d : Denom) (dep : Addr) : St :=
+  { s with assets := s.assets.map (fun da => if da.1 = d then (da.1, { da.2 with deputy := dep }) else da) }
+
 /-! ### operation sequences -/
 
 inductive Op where
@@ -387,6 +393,7 @@ inductive Op where
   | refund (frm : Addr) (swapID : Id)
   | beginBlock (dh : Nat) (dt : Int)
   | setLimit (d : Denom) (limit : Int) (timeLimited : Bool) (period tbl : Int) (active : Bool)
+  | setDeputy (d : Denom) (dep : Addr)
 
 def apply (cfg : Cfg) (hs : Hashes) (s : St) : Op → Res
   | .create hash ts span sender recipient other coins => create cfg hs s hash ts span sender recipient other coins
@@ -394,6 +401,7 @@ def apply (cfg : Cfg) (hs : Hashes) (s : St) : Op → Res
   | .refund _ id => refund cfg hs s id
   | .beginBlock dh dt => .ok (beginBlock hs s dh dt)
   | .setLimit d l tl p tbl act => .ok (setLimit s d l tl p tbl act)
+  | .setDeputy d dep => .ok (setDeputy s d dep)
 
 /-- baseapp: a failed message leaves the state unchanged -/
 def step (cfg : Cfg) (hs : Hashes) (s : St) (op : Op) : St :=
